@@ -305,7 +305,13 @@ def to_fieldcompare(M, extra_point=None, extra_cell=None):
     from fieldcompare.mesh import Mesh, MeshFields, CellType
     from .predfam import with_memory_layout
     pts = with_memory_layout(np.array([[float(x) for x in p] for p in M["pts"]], dtype=float).reshape(len(M["pts"]), M["dim"]))
-    mesh = Mesh(pts, [(CellType.from_name(t), connectivity_array(rows)) for t, rows in M["blocks"]])
+    if M.get("ptype") == "float32" and all(float(np.float32(float(x))) == float(x) for p in M["pts"] for x in p):
+        pts = with_memory_layout(pts.astype(np.float32))           # coordinates stored in single precision (exactly representable)
+
+    def conn_(rows):
+        c = connectivity_array(rows)
+        return with_memory_layout(c) if c.dtype != object else c
+    mesh = Mesh(pts, [(CellType.from_name(t), conn_(rows)) for t, rows in M["blocks"]])
     pd = {}
     for name, rows in M["pf"].items():
         isint = rows and isinstance(first_scalar(rows[0]), int)
